@@ -5,7 +5,7 @@
     one result-list reference — accepted iff exactly one column of the tables in
     scope (restricted to the qualifier, if any) has the name; "does not exist" /
     "ambiguous" otherwise; never a panic (C10_ref_decision_partial). *)
-From Verif Require Import Model.Compile Spec.PgScope Judge.JQ Judge.J02 Proofs.ColumnsFacts.
+From Verif Require Import Model.Compile Spec.PgScope Judge.JQ Judge.J02 Proofs.ColumnsFacts Proofs.CompileFacts2.
 Open Scope string_scope.
 Open Scope list_scope.
 
@@ -25,3 +25,70 @@ Theorem C10_ref_decision_partial : forall res tables ref alias name,
   end.
 Proof. exact column_ref_decision. Qed.
 Print Assumptions C10_ref_decision_partial.
+
+(** On the composed model.  Accepting direction: a query parse_query accepts
+    passed every stage; in particular every relation of its from-list exists
+    (as a CTE of the statement or a table of the catalog) and every plain column
+    reference of its result / RETURNING list has exactly one candidate among the
+    columns in scope. *)
+Theorem C10_accepted_passed_every_stage : forall e raw src positional q,
+  parse_query e raw src positional = Ok (Some q) ->
+  let raw2 := fst (fst (named_parameters (env_engine e) raw)) in
+  let names := snd (fst (named_parameters (env_engine e) raw)) in
+  let stmt2 := kid "Stmt" raw2 in
+  exists raw_sql refs0 qc ex expanded,
+    walk_ok raw = true /\ param_style_ok raw = true /\ param_ref_gap raw = None /\
+    supported_stmt (kind_of (kid "Stmt" raw)) = true /\
+    pluck src (int_of "StmtLocation" raw) (int_of "StmtLen" raw) = Ok raw_sql /\
+    meta_parse (trim_space raw_sql) (comment_syntax_of (env_engine e)) = Ok (Compile.q_name q, q_cmd q) /\
+    cmd_ok (kid "Stmt" raw) (q_cmd q) = true /\
+    find_parameters stmt2 = Ok refs0 /\
+    resolve_catalog_refs e (search (is_kind "RangeVar") stmt2)
+      (if positional then positional_refs refs0 else sort_refs (unique_refs [] refs0)) names = Ok (q_params q) /\
+    build_query_catalog (fuel_of raw) e stmt2 = Ok qc /\
+    output_columns (fuel_of raw) e qc stmt2 = Ok (q_columns q) /\
+    expand (fuel_of raw) e qc raw2 = Ok ex /\
+    strip_comments expanded = Ok (q_sql q, q_comments q).
+Proof. exact parse_query_inv. Qed.
+Print Assumptions C10_accepted_passed_every_stage.
+
+Theorem C10_accepted_targets_resolve_partial : forall e raw src positional q,
+  parse_query e raw src positional = Ok (Some q) ->
+  let stmt2 := kid "Stmt" (fst (fst (named_parameters (env_engine e) raw))) in
+  exists qc tables, build_query_catalog (fuel_of raw) e stmt2 = Ok qc /\
+    source_tables (node_size raw) e qc stmt2 = Ok tables /\
+    forall targets res alias name,
+      stmt_targets stmt2 = Some targets -> In res (items targets) ->
+      is_kind "ResTarget" res = true -> kind_of (kid "Val" res) = "ColumnRef" ->
+      has_star_ref (kid "Val" res) = false ->
+      ref_name_alias (kid "Val" res) = Some (alias, name) ->
+      List.length (ref_candidates tables alias name) = 1%nat.
+Proof. exact accepted_query_targets_resolve. Qed.
+Print Assumptions C10_accepted_targets_resolve_partial.
+
+Theorem C10_accepted_relations_exist_partial : forall f e ctes n tables,
+  source_tables f e ctes n = Ok tables ->
+  exists its, source_items n = Some its /\
+    forall it, In it its -> is_kind "RangeSubselect" it = false -> is_kind "RangeVar" it = true ->
+      exists t, qc_get_table e ctes (table_of_rangevar it) = Ok t.
+Proof. exact accepted_relations_exist. Qed.
+Print Assumptions C10_accepted_relations_exist_partial.
+
+Theorem C10_relation_resolves_iff : forall e ctes rel,
+  (exists t, qc_get_table e ctes rel = Ok t) <->
+  (assoc ctes (tn_name rel) <> None \/ cat_get_table (env_cat e) rel <> None).
+Proof. exact relation_resolves_iff. Qed.
+Print Assumptions C10_relation_resolves_iff.
+
+(** Rejecting direction: a plain result reference that no column, or more than
+    one column, in scope answers to makes outputColumns - hence the query - fail. *)
+Theorem C10_unresolved_target_rejected_partial : forall f e ctes n tables targets res alias name,
+  source_tables f e ctes n = Ok tables ->
+  stmt_targets n = Some targets -> In res (items targets) ->
+  is_kind "ResTarget" res = true -> kind_of (kid "Val" res) = "ColumnRef" ->
+  has_star_ref (kid "Val" res) = false ->
+  ref_name_alias (kid "Val" res) = Some (alias, name) ->
+  List.length (ref_candidates tables alias name) <> 1%nat ->
+  forall cols, output_columns (S f) e ctes n <> Ok cols.
+Proof. exact unresolved_target_rejects. Qed.
+Print Assumptions C10_unresolved_target_rejected_partial.
